@@ -279,12 +279,16 @@ func ruleTAIL(c *Ctx) {
 		// names do not matter: the loop runs a counter below N, and copies
 		// recv.stack[recv.sp-N+counter] to recv.stack[…basePointer+counter]
 		l, r := w.SrcRecv(vi.Fn, as.Lhs[0]), w.SrcRecv(vi.Fn, as.Rhs[0])
-		cb, ok := ast.Unparen(fs.Cond).(*ast.BinaryExpr)
-		if !ok || cb.Op != token.LSS {
+		cb0, ok := ast.Unparen(fs.Cond).(*ast.BinaryExpr)
+		if !ok {
 			continue
 		}
-		cnt, ok1 := ast.Unparen(cb.X).(*ast.Ident)
-		lim, ok2 := ast.Unparen(cb.Y).(*ast.Ident)
+		cop, cx, cy := lessForm(cb0)
+		if cop != token.LSS {
+			continue
+		}
+		cnt, ok1 := ast.Unparen(cx).(*ast.Ident)
+		lim, ok2 := ast.Unparen(cy).(*ast.Ident)
 		if !ok1 || !ok2 {
 			continue
 		}
